@@ -829,14 +829,16 @@ theorem arm_input {tag : Tag} {s : State} (hi : HInv s) (hr : Rooted s.dom s.ope
     Sat (do
       if ← contextIsSelect "rules.rs:823" then
         let _ ← unexpected
-      if ← inScopeNamed defaultScope "select" then
-        let _ ← unexpected
-        let _ ← popUntilNamed "select"
-      let hidden := isTypeHidden tag
-      reconstructActiveFormattingElements
-      let _ ← insertAndPopElementFor tag
-      if !hidden then setFramesetOk false
-      pure .doneAckSelfClosing) s (fun r s' => PlainRes r ∧ BK s s') := by
+        pure .done
+      else
+        if ← inScopeNamed defaultScope "select" then
+          let _ ← unexpected
+          let _ ← popUntilNamed "select"
+        let hidden := isTypeHidden tag
+        reconstructActiveFormattingElements
+        let _ ← insertAndPopElementFor tag
+        if !hidden then setFramesetOk false
+        pure .doneAckSelfClosing) s (fun r s' => PlainRes r ∧ BK s s') := by
   have hfin : ∀ s3, HInv s3 → Rooted s3.dom s3.openElems →
       Sat (do
         reconstructActiveFormattingElements
@@ -888,7 +890,7 @@ theorem arm_input {tag : Tag} {s : State} (hi : HInv s) (hr : Rooted s.dom s.ope
   split
   · refine bk_step hi1 (bk_unexpected hi1 hr1) ?_
     intro _ s2 hi2 hr2
-    exact hmid s2 hi2 hr2
+    exact bk_pure hi2 hr2 plain_done
   · exact hmid s1 hi1 hr1
 
 theorem arm_param {tag : Tag} {s : State} (hi : HInv s) (hr : Rooted s.dom s.openElems)
